@@ -215,6 +215,19 @@ W_STANDALONE = {  # a weight above 1 on a class that is no production of any rul
 }
 
 
+W_TINY = {  # a rule all of whose declared weights are tiny (relative weights: only the ratios mean anything), one of them zero
+    "name": "w_tiny_weights",
+    "abstracts": [{"name": "Expr", "parent": None, "style": "abc"}, {"name": "Op", "parent": "Expr", "style": "decorator", "weight": 3}],
+    "prods": [
+        {"name": "Leaf", "parent": "Expr", "fields": []},
+        {"name": "Never", "parent": "Op", "fields": [], "weight": 0},
+        {"name": "Rare", "parent": "Op", "fields": [["e", ["ref", "Expr"]]], "weight": 1e-10},
+        {"name": "Common", "parent": "Op", "fields": [["k", ["bool"]]], "weight": 3e-10},
+    ],
+    "start": "Expr",
+}
+
+
 def run_case(case, rec):
     HOLDER["rec"] = rec
     desc = grammars.gen_descriptor(case["seed"] * 7919 + case["i"], "weighted")
@@ -227,6 +240,9 @@ def run_case(case, rec):
     if case["i"] % 25 == 19:
         desc = dict(W_UNPRODUCTIVE)
         rec.count("hierarchies_with_an_uncompletable_sibling")
+    if case["i"] % 25 == 3:
+        desc = dict(W_TINY)
+        rec.count("hierarchies_with_tiny_weights")
     if case["i"] % 25 == 13:
         desc = dict(UNLISTED_WEIGHT)
         rec.count("hierarchies_whose_only_weight_is_on_an_unlisted_class")
